@@ -1,10 +1,11 @@
 /-
-  Assembly of C16 / C09, part 1: the proviso on the kind of DTSTART.
+  Assembly of C16 / C09, part 1: the kind of DTSTART.
 
   `KindOk r ds`: RFC 5545 (3.3.10) -- BYHOUR, BYMINUTE and BYSECOND must not be specified when DTSTART is a DATE.
-  It implies the provisos `TimeOk` (weekly, daily filler) and `AllDayOk` (yearly, monthly filler) of the per-filler
-  theorems, and it is handed on from a filler's seed to everything the filler writes: the hour of an instant
-  written is a BYHOUR value (< 24) or the seed's hour (`HFrom`).  Here: the definitions and the yearly and monthly
+  It used to be a proviso of the filler and stream theorems; since `make_enum` ignores these parts next to a DATE
+  seed, it is not any more.  What remains here: what a filler writes has the kind of its seed -- the hour of an instant
+  written is a BYHOUR value (< 24) or the seed's hour (`HFrom`), so an all-day instant comes from an all-day seed only
+  (`HFrom.of_allDay`), and `KindOk` is handed on.  Here: the definitions and the yearly and monthly
   filler; part 2 (RrAsm2) has the weekly and daily filler, parts 10-12 the sub-daily ones (hour always < 24).
 -/
 import Echse.Lemmas.RrYlyOk
@@ -16,15 +17,6 @@ open Echse.Lemmas.RrCandOk
 
 /-- RFC 5545: no BYHOUR / BYMINUTE / BYSECOND on a rule whose DTSTART is a DATE (all-day) -/
 def KindOk (r : Rule) (ds : Inst) : Prop := ds.H = allDay → r.H = [] ∧ r.M = [] ∧ r.S = []
-
-theorem KindOk.timeOk {r : Rule} {ds : Inst} (h : KindOk r ds) : Echse.Lemmas.RrOkBase.TimeOk r ds :=
-  fun ha _ => (h ha).2
-
-theorem KindOk.allDayOk {r : Rule} {ds : Inst} (h : KindOk r ds) : AllDayOk r ds := by
-  intro ha _
-  obtain ⟨_, hM, hS⟩ := h ha
-  rw [hM, hS]
-  exact ⟨fun m hm => (nomatch hm), fun s hs => (nomatch hs)⟩
 
 theorem KindOk.of_timed (r : Rule) (ds : Inst) (h : ds.H ≠ allDay) : KindOk r ds := fun h' => absurd h' h
 theorem KindOk.of_plain (r : Rule) (ds : Inst) (hH : r.H = []) (hM : r.M = []) (hS : r.S = []) : KindOk r ds :=
@@ -41,6 +33,8 @@ def HFrom (r : Rule) (p x : Inst) : Prop := x.H ∈ (makeEnum p r).H
 /-- the hours of `make_enum` are `uint8_t` values -/
 theorem enumH_mod (r : Rule) (p : Inst) (h : Nat) (hh : h ∈ (makeEnum p r).H) : h % 256 = h := by
   unfold makeEnum at hh
+  split at hh
+  · simp only [List.mem_singleton] at hh; omega
   dsimp only at hh
   split at hh
   · simp only [List.mem_singleton] at hh; omega
@@ -48,22 +42,30 @@ theorem enumH_mod (r : Rule) (p : Inst) (h : Nat) (hh : h ∈ (makeEnum p r).H) 
 
 /-- an instant written has the kind of the seed: it is all-day only if the seed is -/
 theorem HFrom.of_allDay {r : Rule} {p x : Inst} (hr : WfRule r) (hp : WfInst p) (h : HFrom r p x) (hx : x.H = allDay) :
-    p.H = allDay ∧ r.H = [] := by
+    p.H = allDay := by
   unfold HFrom makeEnum at h
+  split at h
+  · assumption
   dsimp only at h
   unfold allDay at *
   split at h
-  · rename_i he
-    simp only [List.mem_singleton] at h
+  · simp only [List.mem_singleton] at h
     have := hp.time
     unfold allDay at this
-    exact ⟨by omega, List.isEmpty_iff.mp he⟩
+    omega
   · obtain ⟨a, ha, e⟩ := List.mem_map.mp h
     have := hr.hours.2 a ha
     omega
 
+/-- … and an all-day seed yields all-day instants only: BYHOUR is ignored -/
+theorem HFrom.allDay_of {r : Rule} {p x : Inst} (h : HFrom r p x) (hp : p.H = allDay) : x.H = allDay := by
+  unfold HFrom makeEnum at h
+  rw [if_pos hp, hp] at h
+  simp only [List.mem_singleton] at h
+  rw [h]; rfl
+
 theorem HFrom.kindOk {r : Rule} {p x : Inst} (hr : WfRule r) (hp : WfInst p) (hk : KindOk r p) (h : HFrom r p x) :
-    KindOk r x := fun hx => hk (h.of_allDay hr hp hx).1
+    KindOk r x := fun hx => hk (h.of_allDay hr hp hx)
 
 /-- everything a period of the yearly / monthly filler can write has an hour of the ENUM loop -/
 theorem finE_hfrom (r : Rule) (p : Inst) (nti y : Nat) (cand : List Nat) :
